@@ -31,7 +31,12 @@ GLOBAL_ASSUMPTIONS = [
 # for functions the verifier could not decide (contract no longer fits the code, unsupported construct, solver timeout) and
 # in the thorough tier as an extra exploration; what they cover is reported as *bounded*, never as proved.
 BOUNDED = [
-    dict(prefix='ml_pipeline_engine/dag_builders/annotation/builder.py::', script='bounded/builder.py', props=('C15', 'C16')),
+    dict(prefix=('ml_pipeline_engine/dag_builders/annotation/builder.py::',), script='bounded/builder.py', props=('C15', 'C16')),
+    dict(prefix=('ml_pipeline_engine/dag/manager.py::', 'ml_pipeline_engine/dag/storage.py::', 'ml_pipeline_engine/dag/dag.py::',
+                 'ml_pipeline_engine/dag/retrying.py::', 'ml_pipeline_engine/context/dag.py::', 'ml_pipeline_engine/node/node.py::',
+                 'ml_pipeline_engine/chart.py::', 'ml_pipeline_engine/dag/graph.py::'),
+         script='bounded/engine.py',
+         props=('C01', 'C02', 'C03', 'C04', 'C05', 'C09', 'C10', 'C11', 'C12', 'C13', 'C14', 'C19')),
 ]
 VENV_PY = '/venv/bin/python'
 
@@ -160,7 +165,7 @@ def check_property(prop, tier='quick', seed=0):
     for h in BOUNDED:
         if prop not in h['props']:
             continue
-        mine = [k for k in undecided_keys if k.startswith(h['prefix'])]
+        mine = [k for k in undecided_keys if k.startswith(tuple(h['prefix']))]
         if not mine and tier != 'thorough':
             continue
         b = run_bounded(h, prop, out_dir)
